@@ -66,6 +66,15 @@ func catalogueCases(mod string, only string, skip string, conc bool) []*caseT {
 				if d.Recv == nil {
 					sigs[d.Name.Name] = d.Type
 					declNames = append(declNames, d.Name.Name)
+				} else if len(d.Recv.List) == 1 {
+					// a method is emitted as T__m
+					rt := d.Recv.List[0].Type
+					if st, ok := rt.(*ast.StarExpr); ok {
+						rt = st.X
+					}
+					if id, ok := rt.(*ast.Ident); ok {
+						declNames = append(declNames, id.Name+"__"+d.Name.Name)
+					}
 				}
 			case *ast.GenDecl:
 				for _, sp := range d.Specs {
